@@ -1,6 +1,7 @@
 import DeepModel.Driver.Proto
 import DeepModel.Model.Resource
-open Lean Proto Attr Extracted.Attributes Attributes Resource
+import DeepModel.Model.AttrConc
+open Lean Proto Attr Extracted.Attributes Attributes Resource AttrConc
 
 def pScalar (j : Json) : Except String Scalar := do
   match (← getStr j "t") with
@@ -77,6 +78,17 @@ def handle (j : Json) : Except String Json := do
     pure (Json.mkObj [("dict", jDict st.dict), ("dropped", toJson st.dropped), ("frozen", st.frozen),
                       ("dropped0", toJson st0.dropped), ("len0", toJson st0.dict.length),
                       ("errors", Json.arr (errs.map optStr).toArray)])
+  | "sched" =>
+    let cap := (← getOptInt j "cap").map Int.toNat
+    let mvl ← getOptInt j "mvl"
+    let init ← pKVs j "init"
+    let imm ← getBool j "immutable"
+    let ws ← (← getArr j "writers").toList.mapM pOp
+    let sched ← (← getArr j "sched").toList.mapM (·.getNat?)
+    let r := Conc.run ws (Conc.init (create cap mvl init imm) ws) sched
+    pure (Json.mkObj [("dict", jDict r.st.dict), ("dropped", toJson r.st.dropped),
+                      ("errors", Json.arr (r.errs.map optStr).toArray),
+                      ("done", Json.arr (r.pcs.map (fun p => Json.bool (p == Pc.done))).toArray)])
   | "clean" =>
     let k ← pKey (← j.getObjVal? "k")
     let v ← pVal (← j.getObjVal? "v")
